@@ -405,8 +405,9 @@ def rules(rep, facts):
         r2c_iteration_tables(rep, facts)
         r2d_lookup_tables(rep, facts)
         r2e_typed_lookups(rep, facts)
-        from .rules_containers import r8_map_summaries
+        from .rules_containers import r8_map_summaries, r9c_sequence_summaries
         r8_map_summaries(rep, facts)
+        r9c_sequence_summaries(rep, facts)
         r4_key_identity(rep, facts)
         r6_sorting(rep, facts)
         r7_bulk_insert(rep, facts)
@@ -416,6 +417,8 @@ def rules(rep, facts):
     if 'toml' in facts.crates:
         r5_map_delegate(rep, facts)
         r5b_iterator_wrappers(rep, facts)
+        from .rules_containers import r9b_toml_map_summaries
+        r9b_toml_map_summaries(rep, facts)
 
 
 def _crossref(rep):
